@@ -44,11 +44,17 @@ func init() {
 		// rotation: the presented refresh token reaches the storage; the storage's new token reaches the response
 		{ID: "E8.refresh.rotation.tokens", Fn: "op.CreateTokenResponse", P: []string{"ctx", "request", "client", "creator", "createAccessToken", "code", "refreshToken"}, Kind: "call",
 			Pat: "op.CreateAccessToken(_, $request, _, $creator, $client, $refreshToken)", Max: 1},
-		{ID: "E8.refresh.rotation.create", Fn: "op.CreateAccessToken", P: []string{"ctx", "tokenRequest", "accessTokenType", "creator", "client", "refreshToken"}, Kind: "call",
-			Pat: "op.createTokens(_, $tokenRequest, _, $refreshToken, $client)", Max: 1},
-		{ID: "E8.refresh.rotation.storage", Fn: "op.createTokens", P: []string{"ctx", "tokenRequest", "storage", "refreshToken", "client"}, Kind: "ret any",
-			Pat: "ret(res(0, $storage.CreateAccessAndRefreshTokens(_, $tokenRequest, $refreshToken)), _, _, _)", Max: 1,
-			Req: []string{"true(op.needsRefreshToken($tokenRequest, $client))"}},
+		{ID: "E8.refresh.rotation.create", Fn: "op.CreateAccessToken", P: []string{"ctx", "tokenRequest", "accessTokenType", "creator", "client", "refreshToken"}, Kind: "ret ok",
+			Why: "the presented refresh token is handed to the storage together with the request (rotation), and the storage's new token is what is returned",
+			Req: []string{"tokensCreated($id, $r1, $exp, $tokenRequest, $refreshToken)"}},
+		{ID: "E8.refresh.rotation.storage", Fn: "op.createTokens", P: []string{"ctx", "tokenRequest", "storage", "refreshToken", "client"}, Kind: "call",
+			Pat: "$storage.CreateAccessAndRefreshTokens(_, $tokenRequest, $refreshToken)", Max: 1,
+			Why: "access and refresh tokens are created together exactly when the request calls for a refresh token",
+			Req: []string{"true(op.needsRefreshToken($tokenRequest, $client)) || is($tokenRequest, RefreshTokenRequest)"}},
+		{ID: "E8.refresh.rotation.no-plain-token-for-refresh", Fn: "op.createTokens", P: []string{"ctx", "tokenRequest", "storage", "refreshToken", "client"}, Kind: "call",
+			Pat: "$storage.CreateAccessToken(_, $tokenRequest)", Max: 1,
+			Why: "a refresh request never takes the access-token-only path (the presented refresh token would not be rotated)",
+			Req: []string{"false(op.needsRefreshToken($tokenRequest, $client)) || notis($tokenRequest, RefreshTokenRequest)"}},
 		{ID: "E8.refresh.rotation.response", Fn: "op.CreateTokenResponse", P: []string{"ctx", "request", "client", "creator", "createAccessToken", "code", "refreshToken"}, Kind: "ret ok",
 			Pat: "ret(&AccessTokenResponse{RefreshToken: $new, AccessToken: $at}, nil)", Max: 1,
 			Req: []string{"false($createAccessToken) || def($new, op.CreateAccessToken(_, $request, _, $creator, $client, $refreshToken), 1)"}},
